@@ -337,6 +337,8 @@ class BosonicBackend(BaseBosonic):
 
     def reset(self, pure=True, **kwargs):
         self.circuit.reset(num_subsystems=self._init_modes, num_weights=1)
+        # measurement-based gate ancilla outcomes belong to the run that produced them
+        self.ancillae_samples_dict = {}
 
     def prepare_thermal_state(self, nbar, mode):
         self.circuit.init_thermal(nbar, mode)
